@@ -34,6 +34,10 @@ func init() {
 	generators["longprobe"] = genLongProbe
 	generators["twoinflight"] = genTwoInFlight
 	generators["outage"] = genOutage
+	generators["slowdemote"] = genSlowDemote
+	generators["hungrestart"] = genHungRestart
+	generators["healthconn"] = genHealthConn
+	generators["dupacquire"] = genDupAcquire
 }
 
 func anyLatency(r rng, h time.Duration) Latency {
@@ -2057,6 +2061,201 @@ func genOutage(r rng, k int) *Spec {
 		Action{After: ms, Kind: "waitbreak", Break: "vr", D: 2 * sec},
 		Action{After: h, Kind: "release", Break: "vr"},
 	)
+	s.Duration = 6 * h
+	s.Sample = sampleFor(h)
+	return s
+}
+
+// ---------------------------------------------------------------------------
+// slowdemote: the application's OnDemote callback is slow (0.3 s, 1 s, or longer than TTL
+// plus a re-election). The leader is stopped with every stop variant - some give up
+// while the callback still runs - and started again during or after the callback.
+// Fault-free: the premises of C02/C07 hold.
+// ---------------------------------------------------------------------------
+
+// SlowDemoteTotal is the size of the enumeration.
+func SlowDemoteTotal() int { return 3 * 7 * 3 * 2 }
+
+func genSlowDemote(r rng, k int) *Spec {
+	idx := k % SlowDemoteTotal()
+	h := r.pickD(200*ms, 500*ms)
+	ttl := 3 * h
+	dd := []time.Duration{300 * ms, 1 * sec, ttl + 3*h}[idx%3]
+	idx /= 3
+	svs := []StopVariant{
+		{DeleteKey: true, Wait: true, Timeout: dd + 5*sec},
+		{DeleteKey: true, Wait: true, Timeout: 200 * ms},
+		{DeleteKey: false, Wait: true, Timeout: 200 * ms},
+		{DeleteKey: true, Wait: true, CtxKind: "cancelmid", CtxD: 100 * ms, Timeout: dd + 5*sec},
+		{DeleteKey: true, Wait: false, Timeout: 5 * sec},
+		{DeleteKey: false, Wait: true, CtxKind: "deadline", CtxD: 150 * ms},
+		{Plain: true},
+	}
+	sv := svs[idx%len(svs)]
+	idx /= len(svs)
+	restart := []string{"during", "after", "none"}[idx%3]
+	idx /= 3
+	two := idx%2 == 1
+	s := &Spec{TTL: ttl, Benign: true, NoPreempt: true, Tags: []string{"lifecycle", "slowdemote", restart}}
+	s.Lat = Latency{Max: r.pickD(0, 2*ms)}
+	s.Insts = mkInsts(2, 1, h)
+	s.Insts[0].DemoteDelay = dd
+	s.Insts[0].BlockPromote = r.chance(0.5)
+	s.Actions = append(s.Actions, Action{At: 10 * ms, Kind: "start", Inst: "i0"})
+	if two {
+		s.Actions = append(s.Actions, Action{At: 300 * ms, Kind: "start", Inst: "i1"})
+	}
+	t := 2 * sec
+	s.Actions = append(s.Actions, Action{At: t, Kind: "stop", Inst: "i0", Stop: &sv})
+	switch restart {
+	case "during":
+		s.Actions = append(s.Actions, Action{At: t + r.pickD(20*ms, dd/3), Kind: "start", Inst: "i0"})
+	case "after":
+		s.Actions = append(s.Actions, Action{At: t + dd + 5*sec + 500*ms, Kind: "start", Inst: "i0"})
+	}
+	if !two {
+		// a second instance arrives late: it finds whatever the first one left behind
+		s.Actions = append(s.Actions, Action{At: t + dd + ttl + 8*sec, Kind: "start", Inst: "i1"})
+	}
+	s.Duration = dd + ttl + 4*h + 2*sec
+	if !two {
+		s.Duration = 2*ttl + 2*sec
+	}
+	s.Sample = sampleFor(h)
+	return s
+}
+
+// ---------------------------------------------------------------------------
+// hungrestart: one store call of a follower's watch loop (its periodic read, or the Watch
+// call itself) hangs for longer than a stop call waits; the follower is stopped, started
+// again (the hung call is still out), the call finally returns, the store is fine from
+// then on - and later the record becomes vacant. The restarted follower is a healthy
+// candidate like any other.
+// ---------------------------------------------------------------------------
+
+// HungRestartTotal is the size of the enumeration.
+func HungRestartTotal() int { return 2 * 3 * 3 }
+
+func genHungRestart(r rng, k int) *Spec {
+	idx := k % HungRestartTotal()
+	op := []string{"Get", "Watch"}[idx%2]
+	idx /= 2
+	sv := []StopVariant{{Plain: true}, {DeleteKey: false, Timeout: 300 * ms}, {DeleteKey: true, Wait: true, CtxKind: "deadline", CtxD: 500 * ms}}[idx%3]
+	idx /= 3
+	how := []string{"graceful", "outdel", "outexpire"}[idx%3]
+	h := r.pickD(200*ms, 500*ms)
+	s := &Spec{TTL: 3 * h, NoPreempt: true, Tags: []string{"hungrestart", op, how}}
+	s.Lat = Latency{Max: r.pickD(0, 2*ms)}
+	s.Insts = mkInsts(2, 1, h)
+	t := 2 * sec
+	hang := 8 * sec
+	s.Actions = append(s.Actions, Action{At: 10 * ms, Kind: "start", Inst: "i0"}, Action{At: 300 * ms, Kind: "start", Inst: "i1"})
+	if op == "Get" {
+		s.Rules = append(s.Rules, FaultRule{Client: "i1", Op: "Get", From: t, To: t + 600*ms, Kind: "hang", Hang: hang, Err: "timeout"})
+	} else {
+		// the watch is closed from the store side; the call that re-establishes it hangs
+		s.Rules = append(s.Rules, FaultRule{Client: "i1", Op: "Watch", From: t, To: t + 2*sec, Kind: "hang", Hang: hang, Err: "timeout"})
+		s.Actions = append(s.Actions, Action{At: t + 10*ms, Kind: "closewatch", Inst: "i1"})
+	}
+	s.Actions = append(s.Actions,
+		Action{At: t + 700*ms, Kind: "stop", Inst: "i1", Stop: &sv},
+		Action{After: ms, Kind: "waitapi", Inst: "i1", D: 7 * sec},
+		Action{After: 100 * ms, Kind: "start", Inst: "i1"},
+	)
+	tv := t + hang + 2*sec // the hung call is back, the store answers, the restarted follower has settled
+	switch how {
+	case "graceful":
+		s.Actions = append(s.Actions, Action{At: tv, Kind: "stop", Inst: "i0", Stop: &StopVariant{DeleteKey: true, Wait: true, Timeout: 5 * sec}})
+	case "outdel":
+		s.Actions = append(s.Actions, Action{At: tv, Kind: "stop", Inst: "i0", Stop: &StopVariant{Plain: true}}, Action{After: ms, Kind: "outdel", Inst: "g0"})
+	default:
+		s.Actions = append(s.Actions, Action{At: tv, Kind: "stop", Inst: "i0", Stop: &StopVariant{Plain: true}}, Action{After: ms, Kind: "outexpire", Inst: "g0"})
+	}
+	s.Duration = 4 * sec
+	s.Sample = sampleFor(h)
+	return s
+}
+
+// ---------------------------------------------------------------------------
+// healthconn: an unhealthy streak of a leader with connection monitoring, with reconnect
+// (and disconnect/reconnect) notifications arriving between the unhealthy ticks. Only a
+// healthy report or a new term restarts the count.
+// ---------------------------------------------------------------------------
+
+// HealthConnTotal is the size of the enumeration.
+func HealthConnTotal() int { return 4 * 3 * 2 }
+
+func genHealthConn(r rng, k int) *Spec {
+	idx := k % HealthConnTotal()
+	m := 1 + idx%4
+	idx /= 4
+	word := []string{"R", "DR", "RR"}[idx%3]
+	idx /= 3
+	every := idx%2 == 0 // a notification between every pair of unhealthy ticks, or only once
+	h := r.pickD(500*ms, 1*sec)
+	s := &Spec{TTL: 5 * h, NoPreempt: true, Tags: []string{"health", "connection", "healthconn"}}
+	s.Lat = Latency{Max: r.pickD(0, 2*ms)}
+	s.Insts = mkInsts(1, 1, h)
+	j := 2 + r.IntN(3)
+	s.Insts[0].Health = strings.Repeat("h", j) + strings.Repeat("u", m+4) + strings.Repeat("h", 60)
+	s.Insts[0].HealthOn, s.Insts[0].MaxFail = true, m
+	s.Insts[0].Conn = true
+	s.Insts[0].Grace = 20 * h
+	s.Actions = append(s.Actions, Action{At: 10 * ms, Kind: "start", Inst: "i0"})
+	// ticks at 10ms + n*H (zero-ish latency); the first unhealthy tick is tick j+1
+	for q := 0; q < m+3; q++ {
+		if !every && q != 0 {
+			break
+		}
+		at := 10*ms + time.Duration(j+1+q)*h + h/4
+		s.Actions = append(s.Actions, Action{At: at, Kind: "conn", Inst: "i0", Val: word})
+	}
+	s.Duration = time.Duration(m+8) * h
+	s.Sample = sampleFor(h)
+	return s
+}
+
+// ---------------------------------------------------------------------------
+// dupacquire: two acquisitions of the same instance both succeed: the store applies the
+// first Create but holds its answer, the record written by it is deleted from outside,
+// the instance's next round creates the record again and a term begins - and then the
+// answer to the first Create arrives (within the TTL).
+// ---------------------------------------------------------------------------
+
+// DupAcquireTotal is the size of the enumeration.
+func DupAcquireTotal() int { return 3 * 3 * 2 }
+
+func genDupAcquire(r rng, k int) *Spec {
+	idx := k % DupAcquireTotal()
+	gone := []string{"outdel", "outexpire", "graceful-late"}[idx%3]
+	idx /= 3
+	after := []time.Duration{ms, 50 * ms, 400 * ms}[idx%3] // how long after the second term began the first answer arrives
+	idx /= 3
+	block := idx%2 == 0
+	h := r.pickD(500*ms, 1*sec)
+	s := &Spec{TTL: 5 * h, NoPreempt: true, Tags: []string{"dupacquire", gone}}
+	s.Lat = Latency{Min: ms, Max: r.pickD(2*ms, 5*ms)}
+	s.Insts = mkInsts(2, 1, h)
+	s.Insts[1].BlockPromote = block
+	s.Breaks = []BreakSpec{{Name: "c1", Client: "i1", Op: "Create", Nth: 1, Phase: "resp"}}
+	s.Actions = append(s.Actions, Action{At: 10 * ms, Kind: "start", Inst: "i0"}, Action{At: 300 * ms, Kind: "start", Inst: "i1"},
+		Action{At: 3 * sec, Kind: "arm", Break: "c1"})
+	if gone == "graceful-late" {
+		// the previous leader's shutdown: its Delete lands after the successor's Create
+		s.Actions = append(s.Actions, Action{Chain: true, Kind: "stop", Inst: "i0", Stop: &StopVariant{Plain: true}}, Action{Chain: true, Kind: "outexpire", Inst: "g0"})
+	} else {
+		s.Actions = append(s.Actions, Action{Chain: true, Kind: "stop", Inst: "i0", Stop: &StopVariant{DeleteKey: true, Wait: true, Timeout: 5 * sec}})
+	}
+	s.Actions = append(s.Actions, Action{After: ms, Kind: "waitbreak", Break: "c1", D: 3 * sec})
+	switch gone {
+	case "outexpire":
+		s.Actions = append(s.Actions, Action{After: ms, Kind: "outexpire", Inst: "g0"})
+	default:
+		s.Actions = append(s.Actions, Action{After: ms, Kind: "outdel", Inst: "g0"})
+	}
+	// the watcher sees the deletion, a new round creates the record again (jitter <= 100 ms, or the
+	// periodic check 500 ms later); then the first answer is let through
+	s.Actions = append(s.Actions, Action{After: 700*ms + after, Kind: "release", Break: "c1"})
 	s.Duration = 6 * h
 	s.Sample = sampleFor(h)
 	return s
